@@ -82,3 +82,21 @@ func TestVerifRaceTxHash(t *testing.T) {
 	}()
 	wg.Wait()
 }
+
+// F19: NextURL adds to reqCounter atomically and then reads it with a plain
+// load; every task of a source calls NextURL on the shared client.
+func TestVerifRaceNextURL(t *testing.T) {
+	fn := newFakeNode(t)
+	c := New(fn.ts.URL, fn.ts.URL)
+	var wg sync.WaitGroup
+	for g := 0; g < 4; g++ {
+		wg.Add(1)
+		go func() {
+			defer wg.Done()
+			for k := 0; k < 1000; k++ {
+				c.NextURL()
+			}
+		}()
+	}
+	wg.Wait()
+}
